@@ -5,6 +5,16 @@ VERIF = os.path.dirname(os.path.dirname(os.path.abspath(__file__)))
 
 # id -> (category, technique, text, note, design_ref, engine)
 CHECKS = {
+ "C15": ("model_checking",
+         "TLC exhaustive check of PlusCal Accum.tla (every CAR layout x reader/flusher interleaving); TLC-simulated layouts+schedules forced on the real ObjectAccumulator through a gated io.Reader and gated callback; TLC trace judge (Trace_Accum.tla)",
+         "Every layout of <= 4 (quick) / 6 (thorough) sections over {flush kind, kept, ignored} x body lengths at a varint boundary, with every interleaving of reader and flusher and queue capacities 1-2, is explored exhaustively (prefix/complete/no-aliasing/termination); TLC-generated layouts and schedules are forced on the real accumulator, plus free-running real-scale runs (1 500 groups, > 5 000 children, slow / random consumers, GOMAXPROCS 1/2/16); delivered groups with offsets are judged by TLC against the true offsets measured by the CAR writer.",
+         "Sections are synthetic CBOR arrays carrying only the kind byte; schedules are sampled by TLC -simulate; the queue capacity literal is shrunk to 2 in a rewritten copy for the gated runs.",
+         "DESIGN.md section 7, C15", "accum"),
+ "C16": ("model_checking",
+         "TLC exhaustive check of the MultiReaderAt loop transcription and of the SplitCar piece-writer model; the same space executed on the real MultiReaderAt / SplitCarReader and the real split-car command; TLC trace judge (Trace_MultiReader.tla)",
+         "Every vector of <= 3 (quick) / 4 (thorough) pieces of 0..3 bytes (3 x 0..6 thorough) with every (offset, length) is checked on the transcription and executed on the real reader; the real SplitCarReader is driven over synthetic local / remote-like / padded pieces; generated epoch CARs (incl. a block with > 5 000 objects) are split by the real command at targets forcing 1..N pieces, every piece is parsed by an independent walker and the reassembled CAR is read back; TLC judges every read and every split.",
+         "Content region of a piece = block families (the appended subset node is outside ContentSize, treated as by design); byte identity of split sections is decided per section by the harness' independent walker and carried to TLC as section ids.",
+         "DESIGN.md section 7, C16", "multireader"),
  "C17": ("model_checking",
          "TLC exhaustive check of code-shaped RangeCache.tla (1..3 readers); TLC-generated histories replayed on the real RangeCache; TLC trace judge (Trace_RangeCache.tla)",
          "Every sequential history (Size 4, <= 4-5 operations incl. failing remote, SetRange, expiry of any subset) and every interleaving of 2-3 readers split at the lock boundary is explored exhaustively on the code-shaped model; all short histories and sampled long ones are executed on the real cache, plus 1 MiB-file histories, concurrent readers under the race detector and the ReadAt wrapper; every returned byte string is judged by TLC against the byte function of the remote.",
@@ -22,6 +32,10 @@ CHECKS = {
          "DESIGN.md section 7, C06", "gsfa"),
 }
 ENGINES = [
+ {"name": "accum", "path": "spec/Accum.tla", "serves_properties": ["C15"],
+  "kind_free_text": "PlusCal Accum + AccumAbs + Gen_Accum + Trace_Accum; Go replayer harness/pkg/accum (gated io.Reader / callback)"},
+ {"name": "multireader", "path": "spec/MultiReaderAt.tla", "serves_properties": ["C16"],
+  "kind_free_text": "TLA+ MultiReaderAbs/MultiReaderAt/SplitCar + Trace_MultiReader; Go replayers harness/pkg/split-car-fetcher, harness/main/c16_test.go"},
  {"name": "rangecache", "path": "spec/RangeCache.tla", "serves_properties": ["C17"],
   "kind_free_text": "TLA+ RangeCacheAbs/RangeCache + Gen_RangeCache + Trace_RangeCache; Go replayers harness/pkg/range-cache, harness/pkg/split-car-fetcher"},
  {"name": "firstsuccess", "path": "spec/FirstSuccess.tla", "serves_properties": ["C18"],
